@@ -768,4 +768,116 @@ def r_c13_except(p):
     return {"violates": bool(probs), "problems": probs[:4]}
 
 
-HANDLERS = {"c13": r_c13, "c13_text": r_c13_text, "c13_except": r_c13_except, "c17": r_c17, "c08": r_c08, "c10": r_c10, "c11": r_c11, "c15": r_c15, "c12": r_c12, "c12_raw": r_c12_raw, "c18": r_c18, "parse_step": r_parse_step, "parse_pre": r_parse_pre, "mandatory": r_mandatory, "parse_comm": r_parse_comm, "relational": r_relational, "c09": r_c09, "macrovector4": r_macrovector4, "c07_single": r_c07_single, "c07_pair": r_c07_pair, "c07_foreign": r_c07_foreign}
+def r_c19(p):
+    """history / ambient-state probe on the real library: module globals, decimal context and
+    stdout/stderr must be untouched by a workload, and probe outputs after the workload must
+    equal those of a fresh process"""
+    import contextlib
+    import copy
+    import decimal
+    import io
+    import json
+    import os
+    import subprocess
+    import sys
+
+    probes = [p["vector"]] + list(p.get("extra_vectors", [])) + [
+        "AV:N/AC:L/Au:N/C:P/I:P/A:C", "AV:N/AC:L/Au:N/C:P/I:P/A:Z", "CVSS:3.1/AV:N/AC:L/PR:N/UI:N/S:U/C:H/I:H/A:H", "CVSS:3.0/AV:N/AC:L/PR:L/UI:N/S:C/C:H/I:H/A:H/MS:U",
+        "CVSS:3.1/AV:W/AC:L/PR:N/UI:N/S:U/C:H/I:H/A:H", "CVSS:3.1/AV:N/AC:L/PR:N/UI:N/S:Z/C:H/I:H/A:H", "CVSS:3.1/AV:N/AC:L/PR:N/UI:N/S:U/C:H/I:H/A:H/XX:Y",
+        "CVSS:4.0/AV:N/AC:L/AT:N/PR:N/UI:N/VC:H/VI:H/VA:H/SC:N/SI:N/SA:N", "CVSS:4.0/AV:N/AC:L/AT:N/PR:N/UI:N/VC:H/VI:H/VA:H/SC:N/SI:N/SA:Q", "", "foo"]
+    texts = list(p.get("texts", [])) + ["see CVSS:3.1/AV:N/AC:L/PR:N/UI:N/S:U/C:H/I:H/A:H and AV:N/AC:L/Au:N/C:P/I:P/A:C."]
+    code = r'''
+import json, sys
+import cvss
+from cvss.parser import parse_cvss_from_text
+probes = json.loads(sys.argv[1]); texts = json.loads(sys.argv[2])
+def observe(s):
+    out = []
+    for cls in (cvss.CVSS2, cvss.CVSS3, cvss.CVSS4):
+        try:
+            o = cls(s)
+            out.append([repr(o.scores()), o.clean_vector(), sorted(o.as_json(minimal=True).items()).__repr__()])
+        except Exception as e:
+            out.append(["raises", type(e).__name__])
+    return out
+res = [observe(s) for s in probes] + [sorted(o.clean_vector() for o in parse_cvss_from_text(t)) for t in texts]
+print(json.dumps(res))
+'''
+    env = dict(os.environ)
+    env["PYTHONPATH"] = os.environ.get("CVSS_REPO", "/repo")
+    fresh = []
+    for s in probes:
+        pr = subprocess.run([sys.executable, "-c", code, json.dumps([s]), "[]"], capture_output=True, text=True, env=env, timeout=60)
+        fresh.append(json.loads(pr.stdout.strip().splitlines()[-1])[0] if pr.returncode == 0 and pr.stdout.strip() else ["fresh process failed", pr.stderr[-200:]])
+    import cvss
+    from cvss import constants2, constants3, constants4
+    from cvss.parser import parse_cvss_from_text
+
+    def snapshot():
+        d = {}
+        for mod in [cvss.cvss2, cvss.cvss3, cvss.cvss4, constants2, constants3, constants4, cvss.parser, cvss.exceptions, cvss.interactive]:
+            for k, v in vars(mod).items():
+                if k.startswith("__") or callable(v) or isinstance(v, type(sys)):
+                    continue
+                d[mod.__name__ + "." + k] = repr(v)
+        for c in (cvss.CVSS2, cvss.CVSS3, cvss.CVSS4):
+            for k, v in vars(c).items():
+                if not callable(v) and not k.startswith("__") and not isinstance(v, (classmethod, staticmethod)):
+                    d[c.__name__ + "." + k] = repr(v)
+        return d
+
+    probs = []
+    ctx0 = repr(decimal.getcontext())
+    path0 = list(sys.path)
+    snap0 = snapshot()
+    out, err = io.StringIO(), io.StringIO()
+    with contextlib.redirect_stdout(out), contextlib.redirect_stderr(err):
+        for rnd in range(2):
+            for s in probes:
+                for cls in (cvss.CVSS2, cvss.CVSS3, cvss.CVSS4):
+                    try:
+                        o = cls(s)
+                        o.scores(); o.severities(); o.clean_vector(); o.rh_vector(); o.as_json(sort=True, minimal=True); hash(o); o == o
+                        cls.from_rh_vector(o.rh_vector())
+                    except Exception:  # noqa: BLE001
+                        pass
+            for t in texts:
+                parse_cvss_from_text(t)
+    if snapshot() != snap0:
+        a, b = snap0, snapshot()
+        ch = [k for k in set(a) | set(b) if a.get(k) != b.get(k)]
+        probs.append("module-level state changed: %s" % ", ".join(sorted(ch)[:4]))
+    if repr(decimal.getcontext()) != ctx0:
+        probs.append("decimal context changed")
+    if sys.path != path0:
+        probs.append("sys.path changed")
+    if out.getvalue() or err.getvalue():
+        probs.append("library wrote to stdout/stderr: %r" % ((out.getvalue() + err.getvalue())[:100],))
+    # history dependence: same probes after the workload
+    def observe(s):
+        res = []
+        for cls in (cvss.CVSS2, cvss.CVSS3, cvss.CVSS4):
+            try:
+                o = cls(s)
+                res.append([repr(o.scores()), o.clean_vector(), repr(sorted(o.as_json(minimal=True).items()))])
+            except Exception as e:  # noqa: BLE001
+                res.append(["raises", type(e).__name__])
+        return res
+
+    for s, f in zip(probes, fresh):
+        now = observe(s)
+        if now != f:
+            probs.append("result for %r depends on history: fresh process %r, after workload %r" % (s, f, now))
+    # decimal context
+    if "context" in p:
+        rnd, prec = p["context"]
+        cls = _cls(p["version"])
+        base = cls(p["vector"]).scores()
+        with decimal.localcontext(decimal.Context(prec=prec, rounding=getattr(decimal, rnd))):
+            alt = cls(p["vector"]).scores()
+        if repr(base) != repr(alt):
+            probs.append("scores %r under the default context, %r under (%s, prec %d)" % (base, alt, rnd, prec))
+    return {"violates": bool(probs), "vector": p["vector"], "problems": probs[:4]}
+
+
+HANDLERS = {"c19": r_c19, "c13": r_c13, "c13_text": r_c13_text, "c13_except": r_c13_except, "c17": r_c17, "c08": r_c08, "c10": r_c10, "c11": r_c11, "c15": r_c15, "c12": r_c12, "c12_raw": r_c12_raw, "c18": r_c18, "parse_step": r_parse_step, "parse_pre": r_parse_pre, "mandatory": r_mandatory, "parse_comm": r_parse_comm, "relational": r_relational, "c09": r_c09, "macrovector4": r_macrovector4, "c07_single": r_c07_single, "c07_pair": r_c07_pair, "c07_foreign": r_c07_foreign}
